@@ -180,6 +180,8 @@ def run_case(case):
                 ev["_tg_dev"] = [i["dev"] for i in tinfo]
         ev["names"] = names
         ev["g"] = 2 if len(names) <= 4 else (1 if len(names) <= 6 else 0)
+        if any(max([abs(x) for x in r["co"].values()] + [abs(r["c"]), r["k"]]) > 20000 for r in ev["S"] + ev["ctx"] + ev["R"]):
+            ev["g"] = 0
         events.append(ev)
     return {"id": case["id"], "ev": events}
 
